@@ -75,6 +75,7 @@ def install(cx, rec):
             for i in range(n):
                 for j in range(n):
                     cx.fact(tz(P[i, j]) == (1 if i == j else 0))
+        rec.setdefault('inv', []).append((Lm, X))
         return X
     shim = vars(C)['np']
     from symx.npshim import NPShim
@@ -138,6 +139,19 @@ def h_gevp(cx, N, T, pattern, t0, sort, method, ts=None):
             cx.prove(all(lam[s] >= lam[s + 1] - 1e-12 for s in range(N - 1)), 'state 0 = largest eigenvalue [t=%d]' % t)
         return
     G0 = sym_values(corr, t0)
+    for Lm, X in rec.get('inv', []):
+        # the inv contract pins X down: replace it by the explicit inverse of the triangular factor (forward substitution) once that is proven
+        n = Lm.shape[0]
+        if any(not isinstance(Lm[i, j], SV) and Lm[i, j] != 0 for i in range(n) for j in range(i + 1, n)):
+            continue
+        Xe = np.zeros((n, n), dtype=object)
+        for j in range(n):
+            for i in range(j, n):
+                acc = (1 if i == j else 0) - sum(Lm[i, k] * Xe[k, j] for k in range(j, i))
+                Xe[i, j] = acc / Lm[i, i]
+        for i in range(n):
+            for j in range(n):
+                cx.eliminate(X[i, j], Xe[i, j], 'inverse of the Cholesky factor is the explicit triangular inverse [%d,%d]' % (i, j))
     solves = rec.get('eigh', [])
     cx.expect(len(solves) == len(per_t), 'one eigen-decomposition per timeslice', '%d vs %d' % (len(solves), len(per_t)))
     for (t, vs), (A, Bm, w, V) in zip(sorted(per_t.items()), solves):
@@ -188,8 +202,9 @@ def jobs(tier, seed):
     add('gevp', N=2, T=4, pattern=[True, True, False, True], t0=0, sort='Eigenvalue', method='eigh')
     add('gevp', N=2, T=4, pattern=[True, True, True, True], t0=1, sort='Eigenvalue', method='eigh')
     add('bad')
+    add('gevp', N=2, T=3, pattern=[True, True, True], t0=0, sort=None, method='cholesky', ts=1)
     if tier == 'thorough':
-        add('gevp', N=2, T=3, pattern=[True, True, True], t0=0, sort=None, method='cholesky', ts=1)
+        add('gevp', N=2, T=3, pattern=[True, True, True], t0=1, sort='Eigenvalue', method='cholesky')
         add('gevp', N=2, T=4, pattern=[True, True, True, True], t0=0, sort='Eigenvalue', method='eigh')
     return J
 
